@@ -8,6 +8,7 @@ import (
 	"fmt"
 	"go/constant"
 	"go/types"
+	"regexp"
 	"sort"
 	"strings"
 	"text/template/parse"
@@ -219,6 +220,30 @@ func moduleObligations(ld *Loaded, specs *SpecDB, prop, repo string) []*ObResult
 			"the panic text is template text whose holes are mock name, method name, interface name"))
 		add("C09", tplOb("template/typeparam-names-verbatim", !strings.Contains(text, "$param.Name | Exported"),
 			"type parameter names are printed as declared: method signatures refer to them by their own name"))
+		// identifiers derived from the method name are formed from .Name verbatim
+		idents := map[string]*regexp.Regexp{
+			"Reset<M>Calls": regexp.MustCompile(`Reset\{\{([^}]*)\}\}Calls`),
+			"<M>Func":       regexp.MustCompile(`\{\{([^}]*)\}\}Func\b`),
+			"<M>Calls":      regexp.MustCompile(`[^t]\{\{([^}]*)\}\}Calls\b`),
+			"lock<M>":       regexp.MustCompile(`lock\{\{([^}]*)\}\}`),
+			"calls.<M>":     regexp.MustCompile(`calls\.\{\{([^}]*)\}\}`),
+			"method header": regexp.MustCompile(`\n\) \{\{([^}]*)\}\}\(\{\{\.ArgList\}\}\)`),
+		}
+		var badIdent []string
+		for what, re := range idents {
+			ms := re.FindAllStringSubmatch(text, -1)
+			if len(ms) == 0 {
+				badIdent = append(badIdent, what+": no occurrence")
+			}
+			for _, m := range ms {
+				if strings.TrimSpace(m[1]) != ".Name" {
+					badIdent = append(badIdent, fmt.Sprintf("%s formed from {{%s}}", what, m[1]))
+				}
+			}
+		}
+		sort.Strings(badIdent)
+		add("C02 C03 C04 C08", tplOb("template/method-identifiers-verbatim", len(badIdent) == 0,
+			"method, function-field, accessor, reset, lock and record-list identifiers are the method name unmodified: "+strings.Join(badIdent, "; ")))
 		add("C20", tplOb("template/one-type-per-mock", strings.Count(text, "\ntype {{.MockName}}") == 1 && strings.Contains(text, "{{range $i, $mock := .Mocks -}}"),
 			"one struct declaration per element of .Mocks, in order"))
 	}
